@@ -377,7 +377,7 @@ static void inflate_part(void)
 static struct isal_zstream *DST;
 static uint8_t *DLB;
 static uint32_t DLBS;
-#define DOUT_MAX 12000
+#define DOUT_MAX 200000
 static struct dcur { uint32_t in_off, out_len, flush_budget, zero_budget; uint8_t eos_announced, pad[3]; uint32_t nflush; uint32_t flush_at[8], flush_kind[8], flush_in[8]; uint8_t out[DOUT_MAX]; } DCUR;
 static const uint8_t *DIN;
 static size_t DINLEN;
@@ -387,6 +387,10 @@ static const int DA_OUT_FULL[] = { 0, 1, 2, 7, 8, 9, 15, 16, 17, -1 };
 static const int *DA_IN = DA_IN_FULL, *DA_OUT = DA_OUT_FULL;
 static int NDA_IN = 7, NDA_OUT = 10;
 static int DA_NFLUSH = 3, DA_NEOS = 2;
+#define KF_FLUSH_REFILL "isal_deflate: SYNC/FULL flush call that first has to finish output pending from an earlier call buffers the newly offered input without compressing it, yet returns with avail_in==0, avail_out>0 and ZSTATE_NEW_HDR (flush-point guarantee of igzip_lib.h not met)"
+static uint32_t SE_IN_BEFORE; static int SE_ST_BEFORE; static size_t SE_CONSUMED; /* facts about the call being judged at a flush point */
+static int SE_CONTIG; /* 1: chunks are cut from ONE contiguous caller buffer (the common caller discipline) instead of a fresh mapping per call */
+static uint8_t *se_contig_buf; static size_t se_contig_cap; static const uint8_t *se_contig_src;
 static void (*SE_STATE_HOOK)(void); /* called for every newly discovered deflate state (on a scratch copy) */
 static int SE_REQUIRE_PROGRESS; /* C10: a call with end_of_stream, all input offered and avail_out>=1 must consume, produce or change state */ /* flush choices {NO,SYNC,FULL} and eos timing {with last chunk, late} */
 /* choice = ((ia * NDA_OUT + oa) * 3 + flush) * 2 + eos_timing */
@@ -474,8 +478,23 @@ static int def_call(int ci, int co, int flush, int eos_late, const struct ex_mod
 		if (!DCUR.flush_budget)
 			return EX_SKIP;
 	}
-	uint8_t *in = g_alloc(k, G_END), *out = g_alloc(cap, G_END);
-	memcpy(in, DIN + DCUR.in_off, k);
+	uint8_t *in, *out = g_alloc(cap, G_END);
+	if (SE_CONTIG) {
+		if (se_contig_src != DIN || se_contig_cap < DINLEN) {
+			se_contig_cap = DINLEN + 1;
+			se_contig_buf = g_persist(se_contig_cap, G_END);
+			se_contig_src = NULL;
+		}
+		if (se_contig_src != DIN) {
+			uint8_t *base = se_contig_buf + se_contig_cap - DINLEN; /* input ends at the inaccessible page */
+			memcpy(base, DIN, DINLEN);
+			se_contig_src = DIN;
+		}
+		in = se_contig_buf + se_contig_cap - DINLEN + DCUR.in_off;
+	} else {
+		in = g_alloc(k, G_END);
+		memcpy(in, DIN + DCUR.in_off, k);
+	}
 	DST->next_in = in;
 	DST->avail_in = (uint32_t)k;
 	DST->next_out = out;
@@ -528,7 +547,13 @@ static int def_call(int ci, int co, int flush, int eos_late, const struct ex_mod
 		DCUR.flush_kind[DCUR.nflush] = flush;
 		DCUR.flush_in[DCUR.nflush] = DCUR.in_off;
 		DCUR.nflush++;
-		if (def_verify_final(m, "flush-point"))
+		SE_IN_BEFORE = DCUR.in_off - (uint32_t)consumed;
+		SE_ST_BEFORE = st_before;
+		SE_CONSUMED = consumed;
+		int fr = def_verify_final(m, "flush-point");
+		if (fr == 2)
+			DCUR.nflush--; /* known finding: this was not a real flush point, do not use it for the suffix checks */
+		else if (fr)
 			return EX_VIOLATION;
 	}
 	if (DST->internal_state.state == ZSTATE_END) {
@@ -637,6 +662,12 @@ static int def_verify_final(const struct ex_model *m, const char *what)
 	}
 	(void)hdr;
 	if (!verify_deflate_output(DCUR.out, DCUR.out_len, DGZ == IGZIP_GZIP_NO_HDR || DGZ == IGZIP_ZLIB_NO_HDR ? IGZIP_DEFLATE : DGZ, DIN, DCUR.in_off, 1, 0, NULL, 0, why, sizeof why)) {
+		/* known finding (known_findings.txt): exactly this history - the call entered with output pending (not at NEW_HDR), took new input,
+		 * and the prefix is a valid flush of input consumed BEFORE this call (the input taken by calls that entered with output pending is still only buffered) */
+		if (SE_ST_BEFORE != ZSTATE_NEW_HDR && SE_CONSUMED > 0 && vs_res.verdict == RI_VALID && vs_res.out_len <= SE_IN_BEFORE && !memcmp(vs_buf, DIN, vs_res.out_len)) {
+			v_violation(KF_FLUSH_REFILL, "%s: fed %u bytes, output decodes to %zu; schedule [%s]", ctxdesc, DCUR.in_off, vs_res.out_len, m ? ex_path_str(m) : "");
+			return 2;
+		}
 		v_violation(key, "C14: prefix at a flush point: %s; schedule [%s]", why, m ? ex_path_str(m) : "");
 		nfail++;
 		return 1;
